@@ -289,3 +289,84 @@ Module SSTC.
     | _ => false
     end.
 End SSTC.
+
+(* ---------------- C09: damaged data files (uncompressed tables) *)
+From GoSST Require Import RecordIO.Format.
+Module C09.
+  Import C04 SSTC.
+  Inductive damage := DByte (pos v : N) | DCut (n : N) | DSwap (data : bytes).
+
+  Record obs := mkObs { o_dmg : damage; o_open : bool; o_gets : list (res (option bytes));
+                        o_scan : list kvo * option err; o_from : list kvo * option err }.
+  Record case := mkCase { c_kvs : list kvo; c_on_read : bool; c_index : bytes; c_data : bytes; c_obs : list obs }.
+
+  Definition dDamage (s : sx) : option damage :=
+    match s with
+    | L [I 0; I p; I v] => Some (DByte p v)
+    | L [I 1; I n] => Some (DCut n)
+    | L [I 2; B d] => Some (DSwap d)
+    | _ => None
+    end.
+
+  Definition dObs (s : sx) : option obs :=
+    match s with
+    | L [d; o; gets; sc; fr] =>
+        do d' <- dDamage d; do o' <- dBool o; do gets' <- dList (dRes dOB) gets; do sc' <- dScan sc; do fr' <- dScan fr;
+        Some (mkObs d' o' gets' sc' fr')
+    | _ => None
+    end.
+
+  Definition decode (s : sx) : option case :=
+    match s with
+    | L [kvs; onr; idx; data; obs] =>
+        do kvs' <- dList dKVO kvs; do onr' <- dBool onr; do idx' <- dB idx; do data' <- dB data; do obs' <- dList dObs obs;
+        Some (mkCase kvs' onr' idx' data' obs')
+    | _ => None
+    end.
+
+  Definition apply_damage (d : damage) (data : bytes) : bytes :=
+    match d with
+    | DByte p v => firstn (N.to_nat p) data ++ v :: skipn (S (N.to_nat p)) data
+    | DCut n => firstn (N.to_nat n) data
+    | DSwap m => m
+    end.
+
+  Definition idc : codec := codec_of 0 [].
+
+  Definition check (c : case) : bool :=
+    let t := write_table idc idc (c_kvs c) in
+    bytes_eqb (tf_index t) (c_index c) && bytes_eqb (tf_data t) (c_data c)
+    && forallb (fun o =>
+         let data := apply_damage (o_dmg o) (c_data c) in
+         match open_reader LSlice idc idc (c_index c) data (fun _ => true) (c_on_read c) (c_on_read c) with
+         | Err _ => negb (o_open o)
+         | Ok r =>
+             o_open o
+             && list_eqb res_ob_eqb (map (fun kv => rd_get r (fst kv)) (c_kvs c)) (o_gets o)
+             && scan_eqb (rd_scan r) (o_scan o)
+             && scan_eqb (rd_scan_from r []) (o_from o)
+         end) (c_obs c).
+
+  Definition explain (c : case) :=
+    let t := write_table idc idc (c_kvs c) in
+    (bytes_eqb (tf_index t) (c_index c), bytes_eqb (tf_data t) (c_data c),
+     firstn 3 (map (fun o =>
+         let data := apply_damage (o_dmg o) (c_data c) in
+         (o_dmg o, o_open o, match open_reader LSlice idc idc (c_index c) data (fun _ => true) (c_on_read c) (c_on_read c) with
+         | Err e => ([], ([], Some e), ([], Some e))
+         | Ok r => (map (fun kv => rd_get r (fst kv)) (c_kvs c), rd_scan r, rd_scan_from r [])
+         end, o_gets o, o_scan o, o_from o))
+      (filter (fun o =>
+         let data := apply_damage (o_dmg o) (c_data c) in
+         negb match open_reader LSlice idc idc (c_index c) data (fun _ => true) (c_on_read c) (c_on_read c) with
+         | Err _ => negb (o_open o)
+         | Ok r =>
+             o_open o
+             && list_eqb res_ob_eqb (map (fun kv => rd_get r (fst kv)) (c_kvs c)) (o_gets o)
+             && scan_eqb (rd_scan r) (o_scan o)
+             && scan_eqb (rd_scan_from r []) (o_from o)
+         end) (c_obs c)))).
+
+  Definition check_sx (s : sx) : bool :=
+    match decode s with Some c => check c | None => false end.
+End C09.
